@@ -190,13 +190,14 @@ struct Totals {
     per_pair: Vec<Value>,
     single_outcome_pairs: Vec<String>,
     states: BTreeSet<String>,
+    sys_states: u64,
 }
 
 pub fn run(ctx: &Ctx, which: &str) -> ! {
     let thorough = ctx.tier.is_thorough();
     let envs = envs(16);
     let mut violations: Vec<Violation> = Vec::new();
-    let mut tot = Totals { schedules: 0, steps: 0, per_pair: Vec::new(), single_outcome_pairs: Vec::new(), states: BTreeSet::new() };
+    let mut tot = Totals { schedules: 0, steps: 0, per_pair: Vec::new(), single_outcome_pairs: Vec::new(), states: BTreeSet::new(), sys_states: 0 };
     let mut sample: Option<Value> = None;
 
     if let Some(rp) = &ctx.replay {
@@ -251,10 +252,11 @@ pub fn run(ctx: &Ctx, which: &str) -> ! {
         let out = explore(&envs, &spec.sys, bound, kill, instant, judge, &outcome, cap);
         tot.schedules += out.schedules;
         tot.steps += out.steps;
+        tot.sys_states += out.distinct_states;
         for o in &out.outcomes {
             tot.states.insert(format!("{}#{o}", spec.name));
         }
-        tot.per_pair.push(json!({"programs": spec.name, "preemption_bound": bound, "kill": kill, "schedules": out.schedules, "distinct_outcomes": out.outcomes.len(), "max_points": out.max_points, "capped": out.schedules >= cap}));
+        tot.per_pair.push(json!({"programs": spec.name, "preemption_bound": bound, "kill": kill, "schedules": out.schedules, "distinct_outcomes": out.outcomes.len(), "distinct_system_states": out.distinct_states, "max_points": out.max_points, "capped": out.schedules >= cap}));
         if out.outcomes.len() == 1 && !kill {
             tot.single_outcome_pairs.push(spec.name.clone());
         }
@@ -299,14 +301,15 @@ pub fn run(ctx: &Ctx, which: &str) -> ! {
         }
     }
     let mut rep = Report::new("model_checking");
-    rep.set("states", tot.states.len() as u64)
+    rep.set("states", tot.sys_states)
+        .set("distinct_outcomes", tot.states.len() as u64)
         .set("transitions", tot.steps)
         .set("schedules", tot.schedules)
         .set("traces_validated_against_impl", tot.schedules)
         .set("per_program_pair", Value::Array(tot.per_pair))
         .set("pairs_with_a_single_outcome", json!(tot.single_outcome_pairs))
         .set("samples", json!([sample.unwrap_or(Value::Null)]))
-        .set("explanation", "stateless exploration (CHESS-style iterative preemption bounding) of REAL `copia serve` processes: an LD_PRELOAD interposer parks each server before every libc call that touches the hub tree, reads its stdin or takes the commit lock, and the explorer decides who moves; every schedule re-executes fresh processes on a fresh hub tree. `states` counts distinct (program pair, replies + final tree) outcomes; `transitions` counts scheduling steps executed; every schedule is the implementation itself.");
+        .set("explanation", "stateless exploration (CHESS-style iterative preemption bounding) of REAL `copia serve` processes: an LD_PRELOAD interposer parks each server before every libc call that touches the hub tree, reads its stdin or takes the commit lock, and the explorer decides who moves; every schedule re-executes fresh processes on a fresh hub tree. `states` sums, over the program systems, the distinct (hub tree incl. staging files, per-server progress, lock holder) system states seen after any step; `distinct_outcomes` counts distinct (program pair, replies + final tree) results; `transitions` counts scheduling steps executed; every schedule is the implementation itself.");
     rep.assume("scheduling points = libc calls under the hub root (open/read/write/fsync/stat/rename/unlink/flock/readdir …) + reads of stdin; memory-only steps between them are deterministic per process");
     rep.assume("2 servers at preemption bound 2 (quick); thorough adds all 78 program pairs, bound 3 on focused pairs and 3 servers at bound 1; clients send the next request only after the previous reply, content may arrive in several pieces");
     finish(ctx, rep, violations);
